@@ -20,6 +20,8 @@ pub struct Assigned<'a> {
     /// variables that hold a `&mut` reference or a cursor model: passing one as a bare call argument (a reborrow or a
     /// move) lets the callee mutate it
     pub byref: Vec<String>,
+    /// local closures `let f = |..| body;` in scope (a call `f(..)` is the body, inlined)
+    pub closures: &'a [(String, syn::ExprClosure)],
 }
 
 /// root variable of a place expression
@@ -48,8 +50,8 @@ pub fn pat_idents(p: &syn::Pat, out: &mut Vec<String>) {
 }
 
 impl<'a> Assigned<'a> {
-    pub fn new(mut_methods: &'a [String]) -> Self {
-        Assigned { scopes: vec![BTreeMap::new()], scrut: Vec::new(), out: BTreeSet::new(), mut_methods, byref: Vec::new() }
+    pub fn new(mut_methods: &'a [String], closures: &'a [(String, syn::ExprClosure)]) -> Self {
+        Assigned { scopes: vec![BTreeMap::new()], scrut: Vec::new(), out: BTreeSet::new(), mut_methods, byref: Vec::new(), closures }
     }
     fn declare_pat(&mut self, p: &syn::Pat, parent: Option<String>) {
         let mut v = Vec::new();
@@ -139,7 +141,7 @@ fn is_assign_op(op: &syn::BinOp) -> bool {
     )
 }
 
-impl<'ast, 'a> Visit<'ast> for Assigned<'a> {
+impl<'ast> Visit<'ast> for Assigned<'ast> {
     fn visit_block(&mut self, b: &'ast syn::Block) {
         self.scopes.push(BTreeMap::new());
         visit::visit_block(self, b);
@@ -181,6 +183,20 @@ impl<'ast, 'a> Visit<'ast> for Assigned<'a> {
     fn visit_expr_call(&mut self, c: &'ast syn::ExprCall) {
         for a in &c.args {
             self.touch_byref_arg(a);
+        }
+        // a call of a local closure: what its body assigns (its parameters are its own)
+        if let syn::Expr::Path(p) = &*c.func {
+            if p.qself.is_none() && p.path.segments.len() == 1 {
+                let closures = self.closures;
+                if let Some((_, cl)) = closures.iter().rev().find(|(n, _)| p.path.segments[0].ident == n) {
+                    self.scopes.push(BTreeMap::new());
+                    for inp in &cl.inputs {
+                        self.declare_pat(inp, None);
+                    }
+                    self.visit_expr(&cl.body);
+                    self.scopes.pop();
+                }
+            }
         }
         visit::visit_expr_call(self, c);
     }
